@@ -589,7 +589,7 @@ func TestC18(t *testing.T) {
 				continue
 			}
 			c := enumGraph(n, code)
-			c.Usable = n >= 3 && c.sharedImport()
+			c.Usable = n == 3 && c.sharedImport() // (four packages: 65 536 graphs, the usability leg would take an hour)
 			rec.Eval()
 			if c.nontrivial() {
 				rec.Nontrivial(core.Hash(c.Imports, c.Ns))
